@@ -507,7 +507,7 @@ def ops_strategy():
 
 
 def plan(tier, seed):
-    return [dict(name="timelines-%d" % i, kind="t", n=300 if tier == "quick" else 4000) for i in range(16)]
+    return [dict(name="timelines-%d" % i, kind="t", n=500 if tier == "quick" else 20000) for i in range(16)]
 
 
 def run(spec, ctx):
